@@ -321,6 +321,8 @@ def run(ctx):
                               correspondence="util::parse_filesize / format_filesize (harness) vs model.Size")
             if not rec["mismatches"]:
                 st["agreed"] += s_["parse_total"] + s_["fmt_total"]
+    from .common import replay_generic_known
+    replay_generic_known(ctx, 'C14')
     ctx.coverage.update(
         evaluations=st["evaluations"], distinct_nontrivial=len(st["distinct"]), traces_validated_against_impl=st["agreed"],
         rule="(1) literals <integer|dyadic fraction|decimal fraction><unit> over every documented unit in every letter case, with and without a space, through the real parse_filesize: value = number x documented multiplier (exactly; decimal fractions within one byte); (2) `size OP literal` on files whose sizes sit at m*n-1, m*n, m*n+1 for the multipliers, on the binary; (3) FORMAT_SIZE specifiers from the documented grammar (precision, space, d/c base, fixed unit, short flag, upper case) x sizes: unit name, space, number of decimals and value within half a unit of the last digit, judged from the documentation; default rendering monotone and reading back within the displayed precision on random sizes and all 2^k-1, 2^k, 2^k+1; fsize / format_size columns of the binary equal the function, also under a configuration file that sets default_file_size_format (specifiers with the space first, last and in the middle); (4) model.Size evaluated by coqc equals the real parse_filesize / format_filesize exactly on generated literals (incl. malformed, huge, non-ASCII) and (size, specifier) pairs. non-trivial = distinct literal spellings",
